@@ -286,4 +286,35 @@ theorem C14_decimate_bad_q_noop (v : Variant) (c : SCfg) (ops : List Op) (q : Na
 example : decOk 0 {} = false ∧ decOk 1 { ftype := some .fir } = false ∧ decOk 1 {} = true ∧
     (mInit ⟨[600, 500], [4, 3], 100, [[2, 0], [1, 0]]⟩).datasets ≠ [] := by decide
 
+/-! ## Malformed `ref_ind` (the constructor raises) -/
+
+/-- **Which reference lists the constructor accepts for one dataset with `n` channels**: the removals
+    `mov_id.remove(r)` succeed exactly when the list is duplicate-free and in range (`ValueError` otherwise). -/
+theorem C14_refs_valid_iff (n : Nat) (r : List Nat) :
+    (∃ m, removeRefs (List.range n) r = .ok m) ↔ r.Nodup ∧ ∀ x ∈ r, x < n := by
+  rw [removeRefs_ok_iff _ List.nodup_range r]
+  simp [List.mem_range]
+
+/-- **On the lists the constructor accepts, the total split of the state machines is the constructor's**: when
+    `pre_multisetup` (with its `list.remove` / `reflist[i]` / `reshape` exceptions) returns, and there is one
+    reference list per dataset, the result is `preMultisetup` — the function all C14 theorems are about; on
+    duplicated / out-of-range / missing / empty / exhaustive reference lists no object exists, so the theorems'
+    quantification over every `MCfg` says nothing false about the code there. -/
+theorem C14_ctor_split_eq (nch : Nat → Nat) (ds : List Term) (rs : List (List Nat)) (Y : List Split)
+    (h : preMultisetupChecked nch ds rs = .ok Y) (hl : rs.length = ds.length) : Y = preMultisetup nch ds rs :=
+  preMultisetupChecked_eq nch ds rs Y h hl
+
+example : ∃ Y, preMultisetupChecked (fun _ => 4) [.init 0, .init 1] [[2, 0], [1, 3]] = .ok Y ∧
+    ([[2, 0], [1, 3]] : List (List Nat)).length = ([.init 0, .init 1] : List Term).length := ⟨_, rfl, rfl⟩
+
+/-- duplicated, out-of-range, missing, empty and exhaustive reference lists: the exception classes of the code. -/
+theorem C14_ctor_split_errors :
+    preMultisetupChecked (fun _ => 4) [.init 0, .init 1] [[0, 0], [0, 1]] = .error .valueError ∧
+    preMultisetupChecked (fun _ => 4) [.init 0, .init 1] [[0, 7], [0, 1]] = .error .valueError ∧
+    preMultisetupChecked (fun _ => 4) [.init 0, .init 1] [[0, 1]] = .error .indexError ∧
+    preMultisetupChecked (fun _ => 4) [.init 0, .init 1] [[], []] = .error .valueError ∧
+    preMultisetupChecked (fun _ => 4) [.init 0, .init 1] [[0, 1, 2, 3], [0]] = .error .valueError ∧
+    (∃ Y, preMultisetupChecked (fun _ => 4) [.init 0, .init 1] [[0], [1], [2]] = .ok Y) := by
+  refine ⟨by decide, by decide, by decide, by decide, by decide, ⟨_, rfl⟩⟩
+
 end PV.C14
